@@ -24,15 +24,17 @@ func crashSpec(id string, extra string, probes []string) *PropSpec {
 
 func init() {
 	bigBatch := " One run in 16 is a big-batch run: segments of 1-8 MiB, batches of 2-5 entries of 70 KiB-2.2 MiB (0.2-5 MiB per batch), each hit by a power loss (or process crash) before / after / in the middle of its write or fsync, sector-sized granules."
-	propSpecs["C01"] = crashSpec("C01", bigBatch, []string{"recoveries"})
+	errVariant := " One run in 8 reaches the reopen through a failed call instead of a crash (an error chain of the C10 generator: one injected I/O error inside an append / sealing append / truncation / background rotation, one or two follow-up writes, reopen, append, reopen)."
+	propSpecs["C01"] = crashSpec("C01", bigBatch+errVariant, []string{"recoveries"})
 	propSpecs["C02"] = crashSpec("C02", " C02 emphasis: 90% power losses, 8-byte granules, large segments so that repeated crash/recover/append cycles hit the same tail file and stale frames of earlier torn batches lie behind the new tail (probe stale_bytes_behind)."+bigBatch, []string{"recoveries"})
 	propSpecs["C02"].RequiredFired = append(propSpecs["C02"].RequiredFired, "stale_bytes_behind", "files_torn")
-	propSpecs["C03"] = crashSpec("C03", " C03 adds after every recovery a usability script (append at Last+1, a second append, stable set, head and tail DeleteRange, clean Close/Open, all compared with the model); refusal of a legal call, a deadlock or a step-budget overrun is a violation.", []string{"recoveries", "usability_scripts"})
-	propSpecs["C04"] = crashSpec("C04", " C04 emphasis: crashes targeted at the seam calls inside DeleteRange (ForceSeal write/sync, CommitState, Create, finalizer Delete) and in the appends that re-use truncated indexes."+bigBatch, []string{"recoveries", "truncations"})
+	propSpecs["C03"] = crashSpec("C03", " C03 adds after every recovery a usability script (append at Last+1, a second append, stable set, head and tail DeleteRange, clean Close/Open, all compared with the model); refusal of a legal call, a deadlock or a step-budget overrun is a violation."+errVariant, []string{"recoveries", "usability_scripts"})
+	propSpecs["C04"] = crashSpec("C04", " C04 emphasis: crashes targeted at the seam calls inside DeleteRange (ForceSeal write/sync, CommitState, Create, finalizer Delete) and in the appends that re-use truncated indexes. A quarter of the runs are two-crash truncation chains with a fixed skeleton and drawn sizes / positions / fault placement: recover-then-truncate (an append killed between write and fsync with the page cache surviving; recovery shows the batch; a head truncation reaching into it; power loss before the next write) and torn-seal (a tail truncation hit by a power loss inside its seal writes or metadata commit; re-appends at the truncated indexes; a second crash)."+bigBatch, []string{"recoveries", "truncations"})
 	propSpecs["C13"] = crashSpec("C13", " C13 oracles: after every returned DeleteRange, every Open and at quiescent points the sorted directory listing equals the file names of the segments in committed metadata; every Create succeeds without colliding; a segment ID is bound to one BaseIndex for the lifetime of the directory; committed NextSegmentID never decreases and exceeds every ID ever created; a Create that collides with an existing file is itself a violation. A quarter of the runs have concurrent readers pinning old states instead of crashes, a quarter have injected I/O errors instead of crashes (the C10 generator: a failed creation / deletion / metadata commit, also one whose effect landed, must not lead to an ID or name being handed out twice; the directory listing is judged again after the next Open).", []string{"recoveries", "truncations"})
 	propSpecs["C10"] = &PropSpec{
 		ID: "C10",
 		Rule: "each run = a seeded workload (8-40 API calls) with 1-3 injected I/O errors, each at the k-th seam call (optionally of a given kind: WriteAt, Sync, CommitState, Create, Delete, ListDir, OpenReader, OpenWriter, ReadAt, Load, SetStable, GetStable) inside one operation's window incl. the background rotation and Open; " +
+			"a third of the sequential runs are error chains (fixed skeleton, everything else drawn): 1-3 small appends, optionally a sealing append so that a rotation is pending, ONE failing call - sealing append, append, tail / head / full truncation or the background rotation's own calls - with the error at its 1st-3rd WriteAt / Sync / CommitState / Create, then a retry of the same call or one or two other writes, reopen, append, reopen; " +
 			"fail-before (no effect), fail-after (effect applied, caller told it failed: failed fsync whose data landed, ambiguous metadata commit) or partial (short write; file fsynced but directory fsync failed; unlinked but directory fsync failed); transient or persistent until lifted; pairs in consecutive ops. " +
 			"In-process after every call the WAL must show exactly the acknowledged appends (a failed append invisible; a failed truncation applied or not); after the final clean reopen every failed call is applied in full or not at all and no acknowledged entry is lost or altered. " +
 			"A sixth of the runs are the concurrent half: the C06 workload (writer + 1-4 readers, schedule from the tape) in which up to three of the writer's appends fail with a write or fsync error (before / after / short); a reader that is handed an entry of a StoreLogs call that failed - also while that call is still rolling back - is a violation (failed-append-invisible). Non-trivial = at least one fault fired; distinct = distinct sets of (seam kind, before/after/mid, persistent, op kind in whose window).",
@@ -78,7 +80,7 @@ func init() {
 	clusterRule := "each run = a simulated cluster of 2-4 nodes, each a verifier.NewLogStore over an in-memory reference store behind a seam wrapper (every inner call a yield point; GetLog can return an altered copy), driven by a small model of raft log replication that only generates histories raft could produce: leader appends (checkpoints at tape-chosen places, bootstrap configuration entry at index 1), replication of the leader's stored entries to a follower in batch splits of 1-5, follower lag, leadership change to any node whose log is at least as up to date as a majority's (new leader appends a no-op; followers truncate their conflicting suffix before appending), snapshot install on followers behind the leader's first index, middleware restart (new LogStore over the same inner store), head truncation; truncations wait until no verification of the node is pending (the quantifier's side condition). The verifier goroutines are scheduled by the simulator. Only committed entries (held by a majority) are compacted away and a node with an empty log resumes after its snapshot. Ground truth (what each leader checksummed per checkpoint, what each node stores) is kept by the driver and every delivered VerificationReport is judged against it. A third of the runs inject errors: the k-th inner StoreLogs / DeleteRange / IsCheckpointFn call, or the k-th GetLog / FirstIndex the verifier goroutine or the driver issues, fails before reaching the store; a failed leader append is retried with the same log values (checkpoint metadata already written into them), with fresh copies, or abandoned; a failed call must return the injected error, change nothing and account nothing, a verification whose read failed must report that error and never a checksum mismatch, and later reports are judged as before. An oracle is only reported by the property that owns it (C16 no-false-alarm; C17 detects-divergence, blame-correct; C18 everything else); a foreign oracle that fails ends the run without a verdict. "
 	propSpecs["C16"] = &PropSpec{
 		ID:             "C16",
-		Rule:           clusterRule + "C16: no corruption is injected; a node that stores the whole range exactly as checksummed must get a report without error; a node lacking part of the range must get ErrRangeMismatch. Non-trivial = at least one checkpoint; distinct = interleaving hash + (nodes, leader changes).",
+		Rule:           clusterRule + "C16: no corruption is injected; a node that stores the whole range exactly as checksummed must get a report without error; a node lacking part of the range must get ErrRangeMismatch; whenever the inner store answered not-found to a read of the verification itself, the report must not be a checksum mismatch - this also in the half of the runs (noQuiet, as in C18) where truncations cut ranges whose reports are still queued, which are judged by this rule only. In a quarter of the C16 / C17 runs compaction does not wait for the verifier but stays strictly below every queued or running range (ranges unmodified, all judgements valid). Non-trivial = at least one checkpoint; distinct = interleaving hash + (nodes, leader changes).",
 		Components:     "real: verifier (store.go, verifier.go, metrics.go), metrics.AtomicCollector; harness: replication driver, in-memory inner stores; scheduler adopts each runVerifier goroutine",
 		Assumptions:    []string{"inner stores are the in-memory reference store (the WAL as inner store is exercised by the other properties)", "reports whose leader no longer held its whole range when writing the checkpoint are not judged (counted as reports_truth_unknown)"},
 		RequiredProbes: []string{"checkpoints", "reports_clean_range", "reports_range_not_held", "conflict_truncations", "leader_changes", "middleware_restarts", "head_truncations"},
